@@ -106,6 +106,15 @@ def generate_all(playback=None):
     return metas
 
 
+def extra_props():
+    """units/extra_props.json: obligation name -> further properties the obligation also counts for (used where the same
+    harness discharges a memory-safety obligation of C16 besides its functional one)"""
+    p = os.path.join(VERIF, 'units', 'extra_props.json')
+    if not os.path.exists(p):
+        return {}
+    return json.load(open(p))
+
+
 def discover_harnesses(prop, tier, only=None):
     """scan the committed in-crate harness files; returns list of dicts"""
     res = []
@@ -122,7 +131,7 @@ def discover_harnesses(prop, tier, only=None):
                 if name in seen:
                     continue
                 prefix = name.split('_', 1)[0]
-                props = re.findall(r'c\d\d', prefix)
+                props = re.findall(r'c\d\d', prefix) + [p.lower() for p in extra_props().get(name, [])]
                 if tag not in props:
                     continue
                 flags = name.split('__')[1:]
